@@ -32,8 +32,9 @@ def run(spec, pid, tier, seed, replay=None):
         tables = core.extract_tables()
         core.regen_tables(tables)
     except core.BuildFailed as e:
-        print("ERROR: cannot build /repo with the harness: %s" % e)
-        return 2
+        return core.tie_broken(pid, "harness build", e)
+    except Exception as e:
+        return core.tie_broken(pid, "table extraction", e)
     ok_thm, out_thm = core.lake_build([spec["theorems"]])
     ok_drv, out_drv = core.lake_build(["tgdriver"])
     if not ok_drv:
